@@ -1,2 +1,5 @@
 -- Property files of work group E (import UF.Props.Cxx lines go here).
 import UF.Driver.Ops.GroupE
+import UF.Props.C04
+import UF.Props.C12
+import UF.Proofs.ParseBits
